@@ -17,13 +17,22 @@ Section Plain.
   Hypothesis DE : forall b, length b = 16 -> D key (E key b) = b.
   Hypothesis E_length : forall b, length (E key b) = 16.
 
-  Theorem kw_roundtrip (v : variant) (cek : list N) :
+  (* Wrap succeeds on n >= 1 whole 64-bit blocks (both variants of Wrap and of Unwrap) and
+     Unwrap gives the key data back *)
+  Theorem kw_wrap_succeeds (vw v : variant) (cek : list N) :
     length cek mod 8 = 0 -> 8 <= length cek ->
-    exists c, kw_wrap E key cek = Ok c /\ length c = length cek + 8 /\
+    exists c, kw_wrap E vw key cek = Ok c /\ length c = length cek + 8 /\
               kw_unwrap D v key c = Ok cek.
   Proof.
     intros Hmod Hlen.
     apply (kw_roundtrip_gen E D (fun _ => true) (fun _ => true)); auto using forallb_true.
+  Qed.
+
+  (* current tree: whatever Wrap returns, Unwrap inverts - no condition on the length *)
+  Theorem kw_roundtrip (v : variant) (cek c : list N) :
+    kw_wrap E Fixed key cek = Ok c -> kw_unwrap D v key c = Ok cek.
+  Proof.
+    apply (kw_wrap_unwrap_gen E D (fun _ => true) (fun _ => true)); auto using forallb_true.
   Qed.
 
   (* CBC without padding (the NOPAD algorithms) and with PKCS#7 padding *)
@@ -99,14 +108,23 @@ Proof. reflexivity. Qed.
 Lemma small_byte_ok v : (v <= 16)%N -> byte_ok v = true.
 Proof. intro H. unfold byte_ok. apply N.ltb_lt. lia. Qed.
 
-Theorem aeskw_roundtrip (v : variant) (key cek : list N) :
+Theorem aeskw_wrap_succeeds (vw v : variant) (key cek : list N) :
   aes_inverts key -> length cek mod 8 = 0 -> 8 <= length cek -> bytes_ok cek = true ->
-  exists c, aeskw_wrap key cek = Ok c /\ aeskw_unwrap v key c = Ok cek.
+  exists c, aeskw_wrap vw key cek = Ok c /\ aeskw_unwrap v key c = Ok cek.
 Proof.
   intros Hinv Hmod Hlen Hok.
   destruct (kw_roundtrip_gen aesE aesD aes_key_ok byte_ok byte_ok_lxor be64_ok kw_iv_ok key Hinv
-              (aesE_length key) (aesE_ok key) v cek Hmod Hlen Hok) as (c & H1 & _ & H2).
+              (aesE_length key) (aesE_ok key) vw v cek Hmod Hlen Hok) as (c & H1 & _ & H2).
   exists c. auto.
+Qed.
+
+Theorem aeskw_roundtrip (v : variant) (key cek c : list N) :
+  aes_inverts key -> bytes_ok cek = true ->
+  aeskw_wrap Fixed key cek = Ok c -> aeskw_unwrap v key c = Ok cek.
+Proof.
+  intros Hinv Hok.
+  exact (kw_wrap_unwrap_gen aesE aesD aes_key_ok byte_ok byte_ok_lxor be64_ok kw_iv_ok key Hinv
+           (aesE_length key) (aesE_ok key) v cek c Hok).
 Qed.
 
 Theorem aescbcaead_roundtrip (v : variant) (k : cbchmac_kind) (key nonce pt aad : list N) (c : cbchmac) :
@@ -242,6 +260,22 @@ Proof.
          (hex "00112233445566778899AABBCCDDEEFF").
   split; [vm_compute; discriminate | vm_compute; reflexivity].
 Qed.
+
+(* the code before fixes/C03-kw-wrap-empty.patch: the EMPTY key data "wraps" to the bare 8-byte
+   integrity check value, which Unwrap (either variant that does not panic) refuses - an output
+   that cannot be decrypted; on the current tree Wrap refuses the empty input *)
+Theorem kw_wrap_empty_refuted :
+  exists key c, aeskw_wrap Original key [] = Ok c /\ aeskw_unwrap Fixed key c = Err ErrOther /\
+                encrypt_symmetric Original "A128KW" (KOct key) [] [] [] = Ok (c, []) /\
+                decrypt_symmetric Fixed Fixed "A128KW" (KOct key) [] [] [] c = Err ErrOther.
+Proof.
+  exists (hex "000102030405060708090A0B0C0D0E0F"), kw_iv.
+  repeat split; vm_compute; reflexivity.
+Qed.
+
+Example kw_wrap_empty_refused : forall key,
+  aeskw_wrap Fixed key [] = Err ErrOther.
+Proof. reflexivity. Qed.
 
 (* and the same input on the current tree is refused *)
 Example kw_trailing_bytes_refused :
